@@ -16,19 +16,28 @@ import (
 
 var logger = log.With().Str("component", "updater").Logger()
 
-// getLatestVersionFromGitHub checks the latest version on GitHub and returns it.
-func getLatestVersionFromGitHub() (*selfupdate.Release, error) {
+// newUpdater creates the updater that validates downloads against the checksum file of the release.
+func newUpdater() (*selfupdate.Updater, error) {
 	source, err := selfupdate.NewGitHubSource(selfupdate.GitHubConfig{})
 	if err != nil {
 		logger.Fatal().Err(err)
 	}
-	updater, err := selfupdate.NewUpdater(selfupdate.Config{
+	return selfupdate.NewUpdater(selfupdate.Config{
 		Source:    source,
 		Validator: &selfupdate.ChecksumValidator{UniqueFilename: "crs-toolchain-checksums.txt"}, // checksum from goreleaser
 	})
+}
+
+// getLatestVersionFromGitHub checks the latest version on GitHub and returns it.
+func getLatestVersionFromGitHub() (*selfupdate.Release, error) {
+	updater, err := newUpdater()
 	if err != nil {
 		return nil, err
 	}
+	return detectLatestVersion(updater)
+}
+
+func detectLatestVersion(updater *selfupdate.Updater) (*selfupdate.Release, error) {
 	latest, found, err := updater.DetectLatest(context.Background(), selfupdate.ParseSlug("coreruleset/crs-toolchain"))
 	if err != nil {
 		return latest, fmt.Errorf("error occurred while detecting version: %w", err)
@@ -52,7 +61,11 @@ func LatestVersion() (string, error) {
 // Returns the version string of the updated release, or an error if something went wrong.
 func Updater(version string, executablePath string) (string, error) {
 	emptyVersion := ""
-	latest, err := getLatestVersionFromGitHub()
+	updater, err := newUpdater()
+	if err != nil {
+		return emptyVersion, err
+	}
+	latest, err := detectLatestVersion(updater)
 	if err != nil {
 		return emptyVersion, err
 	}
@@ -76,7 +89,9 @@ func Updater(version string, executablePath string) (string, error) {
 		logger.Info().Msgf("Updating file \"%s\"", executablePath)
 	}
 
-	if err := selfupdate.UpdateTo(context.Background(), latest.AssetURL, latest.AssetName, executablePath); err != nil {
+	// Use the configured updater, not the package level function: only the former
+	// validates the downloaded asset against the checksum file of the release.
+	if err := updater.UpdateTo(context.Background(), latest, executablePath); err != nil {
 		return emptyVersion, fmt.Errorf("error occurred while updating binary: %w", err)
 	}
 	logger.Info().Msgf("Successfully updated to version %s", latest.Version())
